@@ -261,7 +261,7 @@ Dir(ctl, d, ps, q, st) ==
               ELSE IF d.at THEN   \* ~@[ : a true argument is left for the clause, nil is consumed
                    need(1, IF IsNil(arg) THEN skip([st EXCEPT !.ap = @ + 1]) ELSE clause(1, st))
               ELSE LET chosen == HasPar(ps, 1)
-                       okArg == chosen \/ (Left(st) >= 1 /\ Small(arg))
+                       okArg == (chosen /\ ps[1].t = "int") \/ (~chosen /\ Left(st) >= 1 /\ Small(arg))      \* a v that took a character selects nothing
                        idx == IF chosen THEN Par(ps, 1, 0) ELSE IF okArg THEN Val(arg) ELSE 0
                        s0 == IF chosen THEN st ELSE [st EXCEPT !.ap = @ + 1]
                        plain == IF hasDefault THEN n - 1 ELSE n
